@@ -334,6 +334,12 @@ pub fn c02_table(seed: u64, thorough: bool, out: &mut dyn Write) -> Stats {
     pool.push(Value::Timestamp(chrono::DateTime::<chrono::Utc>::MAX_UTC.fixed_offset()));
     pool.push(Value::Timestamp(chrono::DateTime::<chrono::Utc>::MIN_UTC.fixed_offset()));
     pool.push(Value::Timestamp(chrono::DateTime::parse_from_rfc3339("2024-02-29T23:59:59.5+02:00").unwrap()));
+    // chrono's limits viewed at non-zero offsets: the local date lies beyond the limit
+    for off in [-86399, -3600, 3600, 86399] {
+        let fo = chrono::FixedOffset::east_opt(off).unwrap();
+        pool.push(Value::Timestamp(chrono::DateTime::<chrono::Utc>::MAX_UTC.with_timezone(&fo)));
+        pool.push(Value::Timestamp(chrono::DateTime::<chrono::Utc>::MIN_UTC.with_timezone(&fo)));
+    }
     let unary: Vec<String> = {
         let mut v: Vec<String> = ["-a", "!a", "a[0]", "a[1]", "a[-1]", "a.k", "has(a.k)", "[a]", "{a: 1}", "{1: a}", "a ? 1 : 2", "a.all(x, x)", "a.exists(x, true)",
             "a.exists_one(x, x == x)", "a.map(x, x)", "a.filter(x, true)", "a.map(x, true, x)", "a()", "a.a()", "Msg{f: a}", "t(1, a)", "va(a)", "m0(a)", "a.m0()", "idf(a)"]
